@@ -253,14 +253,16 @@ theorem C16_bar_any_trades_settles_exactly_the_due (cx : DCtx) (c : TokenCfg) (s
 
 /-- **the cash of a bar with trades moves by exactly the payoffs** (exact arithmetic): after the strategy's calls the bar's
     `update()` adds, on an on-grid bar, the net payoff (`C16_payoff_formula`: intrinsic value minus delivery fee, or nothing) of every
-    position that is due at that moment, and nothing otherwise -/
+    position that is due at that moment, and nothing otherwise.  `netPayoff` is the model's credited amount on the non-raising path;
+    that it is the property's formula, and that the code's `update()` takes this path, needs the guard on the underlying price
+    (`C16_cash_moves_by_the_formula`, `C16_barX_update_does_not_raise_under_guard`, Proofs/C16/Guard.lean, Hooks.lean) -/
 theorem C16_bar_any_trades_cash (c : TokenCfg) (s : DState) (b : Bar) :
     (runBar DCtx.exact c s b).state.cash =
       (Deribit.midState DCtx.exact c s b).cash +
         (if (Deribit.midState DCtx.exact c s b).onGrid then
           (((Deribit.midState DCtx.exact c s b).positions.filter (fun kp => Deribit.due (Deribit.midState DCtx.exact c s b) kp.2)).map
             (fun kp => netPayoff c (Deribit.midState DCtx.exact c s b) kp.2)).sum else 0) := by
-  rw [(Deribit.runBar_mid DCtx.exact c s b).2.2, C16_cash_moves_by_payoffs]
+  rw [(Deribit.runBar_mid DCtx.exact c s b).2.2, Deribit.update_cash_eq]
   split <;> simp
 
 /-- **Expired records = settlements, over any run**: however the strategy trades (any instruments, accepted or rejected orders, any
